@@ -53,6 +53,7 @@ func c20(c *Ctx) {
 	c20blockComment(c)
 	c20positions(c)
 	c20scannerErrors(c)
+	c20commentReject(c)
 }
 
 // nodeish: *TokenNode, a type with a Format method from package ast, an interface of package ast, or a slice of those.
